@@ -534,19 +534,22 @@ def is_alloc(t):
     return True
 
 
-def mutates(cur, init):
-    """Is `cur` the object `init` after in-place updates (as opposed to a rebinding of the name)?"""
+def mutates(cur, init, depth=0):
+    """Is `cur` the object `init` after at least one in-place update (not merely a rebinding of the name)?"""
     t = cur
+    n = depth
     while True:
         if t == init:
-            return True
+            return n > 0
         tag = t[0]
         if tag == 'obj' or tag == 'upd':
             t = t[1]
+            n += 1
         elif tag == 'mut':
             t = t[2]
+            n += 1
         elif tag == 'ite':
-            return mutates(t[2], init) or mutates(t[3], init)
+            return mutates(t[2], init, n) or mutates(t[3], init, n)
         elif tag in ('after', 'phi', 'tryphi', 'tryany'):
             return True      # loop-carried / merged: conservatively keep
         else:
